@@ -43,7 +43,14 @@ class FBase(BaseException):
     pass
 
 
-KINDS = ["value", "exc", "base", "selfcancel", "ignore1", "ignore3"]
+class FEmpty(Exception):
+    """an exception object that is falsy (an empty aggregate error)"""
+
+    def __len__(self) -> int:
+        return 0
+
+
+KINDS = ["value", "exc", "base", "selfcancel", "ignore1", "ignore3", "falsy_exc"]
 CANCELS = [None, "pre", 1, 2, 3, 5]
 
 
@@ -131,7 +138,7 @@ def execute(program, ch: Chooser) -> Result:  # noqa: C901, PLR0912, PLR0915
     log: list = []
     viols: list[dict] = []
     try:
-        err = FErr("own")
+        err = FErr("own") if kind != "falsy_exc" else FEmpty("own-empty")
         base = FBase("own-base")
         st = {"started": False, "saw_cancel": False, "ended": False, "end_t": None}
 
@@ -149,7 +156,7 @@ def execute(program, ch: Chooser) -> Result:  # noqa: C901, PLR0912, PLR0915
                     raise
                 if program.get("cancel_at_return"):
                     w.loop.call_soon(task.cancel)  # runs before the caller is resumed
-                if kind == "exc":
+                if kind in ("exc", "falsy_exc"):
                     raise err
                 if kind == "base":
                     raise base
@@ -181,12 +188,18 @@ def execute(program, ch: Chooser) -> Result:  # noqa: C901, PLR0912, PLR0915
             res["t"] = now() - START
 
         task = w.task(caller(), name="caller")
+        cancel_handle = None
         if tc == "pre":
             task.cancel()
         elif tc is not None:
-            w.loop.call_at(START + tc, task.cancel)
+            cancel_handle = w.loop.call_at(START + tc, task.cancel)
         hang = False
+        leftover: list = []
         try:
+            w.run(until=lambda: task.done() and (st["ended"] or not st["started"]))
+            # both the call and the function are over: nothing of the wrapper is left scheduled
+            mine = {id(cancel_handle)} if cancel_handle is not None else set()
+            leftover = [h for h in w.loop.live_timers() if id(h) not in mine]
             w.run()
         except Livelock:
             hang = True
@@ -198,6 +211,7 @@ def execute(program, ch: Chooser) -> Result:  # noqa: C901, PLR0912, PLR0915
         own = {
             "value": ("value", "v"),
             "exc": ("raised", "FErr", True),
+            "falsy_exc": ("raised", "FEmpty", True),
             "base": ("raised", "FBase", True),
             "selfcancel": ("cancelled",),
             "ignore1": ("value", "v"),
@@ -249,6 +263,10 @@ def execute(program, ch: Chooser) -> Result:  # noqa: C901, PLR0912, PLR0915
                     )
         if st["started"] and not st["ended"] and not hang:
             viols.append(viol("nothing-running", kind, "function ended at quiescence", dict(st)))
+        if leftover and not hang and not program.get("inner"):
+            viols.append(
+                viol("nothing-running", f"timer-left-scheduled/{kind}", "no timer of the wrapper pending once call and function are over", f"{len(leftover)} timer(s) due at {[h._when - START for h in leftover]}")
+            )
         bad = [e for e in w.loop.exc_log if e["message"] and "Exception in callback" in e["message"]]
         if bad:
             viols.append(viol("callback-exception", kind, "no exception escapes a loop callback", bad[:2]))
